@@ -190,7 +190,7 @@ PLANS = {
                 "the low-level Two-Way / Rabin-Karp / packed-pair finders at search time (longer than the haystack with the haystack as prefix, same length with another "
                 "last byte, doubled, shortened, the haystack's tail). "
                 "(3) the same passes in builds WITHOUT debug assertions and overflow checks (native at three levels, emulated NEON/simd128), where no "
-                "debug_assert! can pre-empt a bad load; (4) Miri for five targets over generated case files; (5, thorough) libFuzzer + ASan. "
+                "debug_assert! can pre-empt a bad load; (4) Miri for five targets over generated case files, every haystack placed at the very end (or start) of an exactly sized allocation so that Miri's allocation bounds are the oracle; (5, thorough) libFuzzer + ASan. "
                 "Non-trivial: the call performs at least one multi-byte load with an unaligned end or a placement against a guard page.",
         "stages": [
             {"name": "bytes-exh", "cmd": "bytes-exh", "configs": cfgs(NATIVE + EMU + PLAIN), "shards": shards(16, 16, 8, 16)},
@@ -206,6 +206,7 @@ PLANS = {
             {"name": "eq-exh", "cmd": "eq-exh", "configs": cfgs(["N-auto", "N-plain-auto"]), "shards": shards(8, 16, 8, 16)},
             {"name": "eq-pbt", "cmd": "eq-pbt", "configs": cfgs(["N-auto"]), "shards": shards(4, 8), "args": ["--scale", "4"]},
             miri_stage("BISPE", quick=60, thorough=6000),
+            dict(miri_stage("B", quick=160, thorough=8000, targets=["M-x86", "M-avx2", "M-a64"], per_shard=40), name="casefile-bytes"),
             {"name": "fuzz", "kind": "fuzz", "configs": cfgs([]), "targets": ["fz_bytes", "fz_substr"], "runs": {"quick": 0, "thorough": 20000000},
              "workers": 4, "thorough_only": True},
         ],
